@@ -1,7 +1,7 @@
 (* C03 — property theorems about the budgeted flatten model.  Each is closed by `exact <lemma>` and followed by
    Print Assumptions; the check re-compiles this file on every run.  (Dispatch / size bounds: MagicsProperties.v) *)
-From Coq Require Import List NArith Bool.
-From MW Require Import Common.Str C03.Model C03.Proofs C03.ProofsLazy.
+From Coq Require Import List NArith Arith Bool.
+From MW Require Import Common.Str C03.Model C03.Proofs C03.ProofsLazy C03.Cost.
 Import ListNotations.
 
 (* For EVERY universe (`tpl` is an arbitrary function from names to parsed templates: self-inclusion, mutual
@@ -123,6 +123,33 @@ Example C03_cost_polynomial_refuted :
   end.
 Proof. exact example_doubling_chain. Qed.
 Print Assumptions C03_cost_polynomial_refuted.
+
+(* What the discipline buys, on the abstract walk of C03/Cost.v (items = text leaves or calls into an arbitrary, possibly
+   cyclic universe `body`; a call uses one unit of the nesting budget b; the first failing child ends its parent): a run that
+   hits the recursion limit visits at most (b + 1) * (w * K + 1) items - LINEAR in the limit b - where w bounds the length
+   of a body and K the cost of the sub-runs that never reach the limit. *)
+Theorem C03_cost_linear_with_discipline :
+  forall (body : nat -> list item) (w K : nat),
+  (forall f, length (body f) <= w) ->
+  (forall b it n, run body b it = (true, n) -> n <= K) ->
+  forall b it n, run body b it = (false, n) -> n <= (b + 1) * (w * K + 1).
+Proof. exact fail_linear. Qed.
+Print Assumptions C03_cost_linear_with_discipline.
+
+(* A = x{{A}}{{A}}: with the discipline exactly 2b + 1 visits; with a handler around each child (run_sw: what a broad
+   `except` around the magic call or around an argument fetch amounts to) 3 * 2^b - 2 visits. *)
+Theorem C03_cost_self_inclusion_disciplined : forall b, run body_xAA b (Call 0) = (false, 2 * b + 1).
+Proof. exact xAA_disciplined. Qed.
+Print Assumptions C03_cost_self_inclusion_disciplined.
+
+Theorem C03_cost_self_inclusion_swallowed : forall b, run_sw body_xAA b (Call 0) + 2 = 3 * 2 ^ b.
+Proof. exact xAA_swallowing. Qed.
+Print Assumptions C03_cost_self_inclusion_swallowed.
+
+(* non-vacuity of the hypotheses of C03_cost_linear_with_discipline: on that universe w = 3, K = 1 *)
+Example C03_cost_bound_instance : forall b n, run body_xAA b (Call 0) = (false, n) -> n <= (b + 1) * (3 * 1 + 1).
+Proof. exact xAA_bound_instance. Qed.
+Print Assumptions C03_cost_bound_instance.
 
 (* non-vacuity: the self-including template a = "x{{a}}" on the page "1{{a}}2{{b}}" (b missing) expands to "12" *)
 Example C03_example_cycle :
